@@ -62,10 +62,21 @@ func (ex *Exec) call(fr *Frame, cc *ssa.CallCommon, in ssa.Instruction, st *Stat
 			ex.oblige("nil", "funcvalue:"+ex.anchor(fr, in, in.Pos()), cur, ok, in.Pos(), fr.prefix)
 			cur = c.And(cur, ok)
 		}
+		if fv.Tm != nil {
+			if r, ncur, ok := ex.indirectCall(fr, cc, in, fv, args, st, cur, resT, mkRes); ok {
+				return r, ncur
+			}
+		}
 		ex.note(ex.Abstr, "func-value-call")
 		ex.havocAll(st)
 		return mkRes("r_fn"), cur
 	}
+	return ex.callStatic(fr, callee, cc, in, args, st, cur, resT, mkRes)
+}
+
+// callStatic handles a call whose target function is known.
+func (ex *Exec) callStatic(fr *Frame, callee *ssa.Function, cc *ssa.CallCommon, in ssa.Instruction, args []Val, st *State, cur *smt.Term, resT types.Type, mkRes func(string) Val) (Val, *smt.Term) {
+	c := ex.W.C
 	if callee.Signature.Recv() != nil && len(args) > 0 && ex.W.inModule(pkgOf(callee)) && !opaquePkg(pkgOf(callee)) {
 		// every module method is verified under "pointer receiver is non-nil": check it at the call site
 		if _, isPtr := args[0].T.Underlying().(*types.Pointer); isPtr {
@@ -116,7 +127,15 @@ func (ex *Exec) call(fr *Frame, cc *ssa.CallCommon, in ssa.Instruction, st *Stat
 	// summary havoc
 	ex.note(ex.Abstr, "call-havoc:"+shortKey(key))
 	ex.applyCalleeEffects(callee, args, st)
-	return mkRes("r_" + callee.Name()), cur
+	res := mkRes("r_" + callee.Name())
+	if pc != nil {
+		for _, pre := range pc.FreshResult {
+			if strings.HasPrefix(localKey(callee), pre) {
+				res = ex.makeFresh(res, st)
+			}
+		}
+	}
+	return res, cur
 }
 
 // opaquePkg: module packages treated like external code (no effect on modelled state).
@@ -125,6 +144,9 @@ func opaquePkg(p *types.Package) bool {
 }
 
 func hasSpec(fc *FuncContract) bool {
+	if len(fc.Logs) > 0 {
+		return true
+	}
 	for _, cl := range fc.Clauses {
 		switch cl.Kind {
 		case "requires", "ensures", "modifies":
@@ -155,6 +177,9 @@ func pkgOf(f *ssa.Function) *types.Package {
 }
 
 func (ex *Exec) canInline(callee *ssa.Function, pc *PkgContracts) bool {
+	if callee.TypeParams().Len() > 0 || callee.Origin() != nil || callee.Synthetic != "" {
+		return false // generic bodies and instantiation wrappers are not executed symbolically
+	}
 	lk := localKey(callee)
 	if pc != nil && pc.NoInline[lk] {
 		return false
@@ -240,6 +265,10 @@ func (ex *Exec) externalCall(fr *Frame, callee *ssa.Function, args []Val, st *St
 		case *types.Signature:
 			// a callback may run: anything may change
 			if _, isFn := a.T.Underlying().(*types.Signature); isFn {
+				if deferredCallback[full] {
+					ex.note(ex.Abstr, "callback-runs-on-another-goroutine:"+shortKey(full))
+					continue
+				}
 				ex.note(ex.Abstr, "callback-to-external:"+shortKey(full))
 				ex.havocAll(st)
 			}
@@ -251,7 +280,26 @@ func (ex *Exec) externalCall(fr *Frame, callee *ssa.Function, args []Val, st *St
 			}
 		}
 	}
-	return mkRes("r_" + callee.Name()), cur
+	res := mkRes("r_" + callee.Name())
+	ex.externalIfaceTags(res)
+	return res, cur
+}
+
+// externalIfaceTags: an `error` produced by code outside the module does not hold a value of a module type.
+func (ex *Exec) externalIfaceTags(v Val) {
+	c := ex.W.C
+	if len(v.Tup) > 0 {
+		for _, e := range v.Tup {
+			ex.externalIfaceTags(e)
+		}
+		return
+	}
+	if v.Tm == nil || v.T == nil {
+		return
+	}
+	if n, ok := v.T.(*types.Named); ok && n.Obj().Pkg() == nil && n.Obj().Name() == "error" {
+		ex.assume(c.Or(c.Eq(v.Tm, ex.W.zeroOfSort(ex.W.Iface)), c.Le(c.IntLit(1000000), c.App("iface_tag", smt.Int, v.Tm))))
+	}
 }
 
 // boxedExternal: the argument is an interface made from a value whose type is declared outside the module.
@@ -272,6 +320,10 @@ func (ex *Exec) boxedExternal(v ssa.Value) bool {
 	}
 	return false
 }
+
+// deferredCallback: external functions that only schedule their callback on another goroutine
+// (covered by the "no concurrent mutation during a call" assumption).
+var deferredCallback = map[string]bool{"time.AfterFunc": true}
 
 var readOnlySliceFuncs = map[string]bool{
 	"bytes.Equal": true, "unicode/utf8.DecodeRune": true, "unicode/utf8.DecodeLastRune": true,
@@ -324,6 +376,18 @@ func (ex *Exec) knownExternal(full string, args []Val, st *State, cur *smt.Term,
 		}
 		ex.assume(c.Or(c.Eq(r.Tm, c.IntLit(-1)), c.And(c.Le(c.IntLit(0), r.Tm), c.Le(c.Add(r.Tm, width), ls))))
 		ex.recordDepAssume("strings.Index returns -1 or an offset i with i+len(sep) <= len(s)")
+		return r, true
+	case "github.com/rivo/uniseg.StringWidth":
+		r := mkRes("width")
+		ex.assume(c.Le(c.IntLit(0), r.Tm))
+		ex.recordDepAssume("uniseg widths are >= 0")
+		return r, true
+	case "github.com/rivo/uniseg.FirstGraphemeClusterInString", "github.com/rivo/uniseg.FirstGraphemeCluster":
+		r := mkRes("cluster")
+		if len(r.Tup) >= 3 {
+			ex.assume(c.Le(c.IntLit(0), r.Tup[2].Tm))
+		}
+		ex.recordDepAssume("uniseg widths are >= 0")
 		return r, true
 	case "unicode/utf8.RuneLen":
 		r := mkRes("runelen")
@@ -528,12 +592,26 @@ func (ex *Exec) contractCall(fr *Frame, callee *ssa.Function, fc *FuncContract, 
 			}
 		}
 	}
+	if explicit && len(fc.Logs) == 0 {
+		// ghost logs are outside modifies clauses: a callee that (transitively) logs changes them
+		for _, k := range ex.Prog.ModSummary(callee).sortedKeys() {
+			if strings.HasPrefix(k, "L:") || strings.HasPrefix(k, "N:") {
+				if hk := ex.Prog.KeyInfo(ex, k); hk != nil {
+					ex.havocKey(st, hk)
+				}
+			}
+		}
+	}
 	if !explicit {
 		ex.applyCalleeEffects(callee, args, st)
 	} else if ex.Prog.ModSummary(callee).allocates {
 		nb := c.Fresh("brk", smt.Int)
 		ex.assume(c.Le(st.brk, nb))
 		st.brk = nb
+	}
+	for _, lc := range fc.Logs {
+		v := envPre.eval(lc.E)
+		ex.logAppend(st, lc.Name, ex.box(v, st))
 	}
 	res := mkRes("r_" + callee.Name())
 	envPost := mkEnv(st, pre)
@@ -544,11 +622,23 @@ func (ex *Exec) contractCall(fr *Frame, callee *ssa.Function, fc *FuncContract, 
 		rets = []Val{res}
 	}
 	ex.bindResults(envPost, callee, rets)
+	nens := 0
 	for _, cl := range fc.Clauses {
 		if cl.Kind != "ensures" {
 			continue
 		}
+		nens++
 		ex.assume(c.Implies(cur, ex.evalBool(envPost, cl.E, cl)))
+	}
+	if nens > 0 && ex.quiet == 0 && ex.noCover == 0 && !cur.IsFalse() {
+		// vacuity guard: the callee's postcondition must not make the continuation unreachable
+		name := fmt.Sprintf("%s#cover:after-call:%s%s", ex.fnName(), fr.prefix, site)
+		n := ex.siteCtr[name]
+		ex.siteCtr[name] = n + 1
+		if n > 0 {
+			name = fmt.Sprintf("%s@%d", name, n+1)
+		}
+		ex.Obls = append(ex.Obls, &Obligation{Name: name, Kind: "cover", Guard: cur, Goal: c.False(), NAssume: len(ex.assumes), ExpectSat: true, Pos: ex.Prog.Fset.Position(in.Pos())})
 	}
 	return res, cur
 }
@@ -684,3 +774,143 @@ func (ex *Exec) loopModset(fr *Frame, li *loopInfo) *Modset {
 }
 
 var _ = token.NoPos
+
+// ---------------------------------------------------------------- ghost logs
+
+func (ex *Exec) logKeys(name string) (*HeapKey, *HeapKey) {
+	arr := ex.regKey("L:"+name, smt.ArraySort(smt.Int, ex.W.Iface), nil)
+	ln := ex.regKey("N:"+name, smt.Int, nil)
+	return arr, ln
+}
+
+func (ex *Exec) logLen(st *State, name string) *smt.Term {
+	_, ln := ex.logKeys(name)
+	t := ex.heapGet(st, ln)
+	ex.assume(ex.W.C.Le(ex.W.C.IntLit(0), t))
+	return t
+}
+
+func (ex *Exec) logAppend(st *State, name string, v *smt.Term) {
+	c := ex.W.C
+	arr, ln := ex.logKeys(name)
+	n := ex.heapGet(st, ln)
+	st.heap[arr.Name] = c.Store(ex.heapGet(st, arr), n, v)
+	st.heap[ln.Name] = c.Add(n, c.IntLit(1))
+}
+
+// makeFresh re-bases a slice or pointer result on a newly allocated reference (assumed exclusive ownership).
+func (ex *Exec) makeFresh(v Val, st *State) Val {
+	c := ex.W.C
+	switch v.T.Underlying().(type) {
+	case *types.Slice:
+		_, off, ln, cp := ex.sliceParts(v.Tm)
+		ref := ex.allocRef(st)
+		return Val{T: v.T, Tm: ex.mkSlice(ref, off, ln, cp)}
+	case *types.Pointer:
+		ref := ex.allocRef(st)
+		_ = c
+		return Val{T: v.T, Tm: ref}
+	}
+	return v
+}
+
+// indirectCall resolves a call through a func value by case analysis over the module functions whose
+// address is taken and whose signature matches; the "none of them" case forgets everything.
+func (ex *Exec) indirectCall(fr *Frame, cc *ssa.CallCommon, in ssa.Instruction, fv Val, args []Val, st *State, cur *smt.Term, resT types.Type, mkRes func(string) Val) (Val, *smt.Term, bool) {
+	c := ex.W.C
+	sig := cc.Signature()
+	type cand struct {
+		fn    *ssa.Function // function to run
+		cond  *smt.Term
+		extra []Val // leading arguments (bound receiver)
+	}
+	ex.W.C.DeclareFun("closure_fn", []smt.Sort{smt.Int}, smt.Int)
+	var cands []cand
+	seenTarget := map[*ssa.Function]bool{}
+	for _, f := range ex.Prog.AddressTaken() {
+		if len(f.FreeVars) == 0 {
+			if types.Identical(f.Signature, sig) || sameParams(f.Signature, sig) {
+				cands = append(cands, cand{fn: f, cond: c.Eq(fv.Tm, c.IntLit(int64(ex.Prog.FuncID(f))))})
+			}
+			continue
+		}
+		// bound method wrapper: one free variable (the receiver), same parameters
+		if len(f.FreeVars) == 1 && f.Synthetic != "" && sameParams(f.Signature, sig) {
+			obj, _ := f.Object().(*types.Func)
+			if obj == nil {
+				continue
+			}
+			target := ex.Prog.SSA.FuncValue(obj)
+			if target == nil {
+				continue
+			}
+			if seenTarget[target] {
+				continue
+			}
+			seenTarget[target] = true
+			ex.W.C.DeclareFun("closure_bind0", []smt.Sort{smt.Int}, smt.Int)
+			recv := Val{T: f.FreeVars[0].Type(), Tm: c.App("closure_bind0", smt.Int, fv.Tm)}
+			cands = append(cands, cand{fn: target, cond: c.Eq(c.App("closure_fn", smt.Int, fv.Tm), c.IntLit(int64(ex.Prog.FuncID(target)))), extra: []Val{recv}})
+		}
+	}
+	if len(cands) == 0 || len(cands) > 40 {
+		return Val{}, nil, false
+	}
+	var conds []*smt.Term
+	var sts []*State
+	var rets []Val
+	var reaches []*smt.Term
+	none := cur
+	for _, cd := range cands {
+		sub := st.clone()
+		g := c.And(cur, cd.cond)
+		all := append(append([]Val{}, cd.extra...), args...)
+		if len(cd.extra) > 0 {
+			ex.boundPtr(cd.extra[0], sub)
+		}
+		fake := &ssa.CallCommon{Value: cd.fn, Args: nil}
+		ex.noCover++ // a candidate may be infeasible at this site
+		r, ncur := ex.callStatic(fr, cd.fn, fake, in, all, sub, g, resT, mkRes)
+		ex.noCover--
+		conds = append(conds, ncur)
+		sts = append(sts, sub)
+		rets = append(rets, r)
+		reaches = append(reaches, ncur)
+		none = c.And(none, c.Not(cd.cond))
+	}
+	// unknown target
+	other := st.clone()
+	ex.havocAll(other)
+	conds = append(conds, none)
+	sts = append(sts, other)
+	rets = append(rets, mkRes("r_fn"))
+	merged := ex.mergeStates(conds, sts)
+	*st = *merged
+	var res Val
+	for k := len(rets) - 1; k >= 0; k-- {
+		if k == len(rets)-1 {
+			res = rets[k]
+		} else if rets[k].Tm != nil || len(rets[k].Tup) > 0 || rets[k].Addr != nil {
+			res = ex.iteVal(conds[k], rets[k], res)
+		}
+	}
+	ex.note(ex.Abstr, fmt.Sprintf("indirect-call resolved over %d candidates", len(cands)))
+	return res, c.Or(conds...), true
+}
+
+func sameParams(a, b *types.Signature) bool {
+	if a.Params().Len() != b.Params().Len() || a.Results().Len() != b.Results().Len() {
+		return false
+	}
+	for i := 0; i < a.Params().Len(); i++ {
+		if !types.Identical(a.Params().At(i).Type(), b.Params().At(i).Type()) {
+			return false
+		}
+	}
+	for i := 0; i < a.Results().Len(); i++ {
+		if !types.Identical(a.Results().At(i).Type(), b.Results().At(i).Type()) {
+			return false
+		}
+	}
+	return true
+}
